@@ -20,7 +20,16 @@ fn lists() -> Vec<Vec<Det>> {
         // a dense cluster: every detection overlaps every track, several per shard
         vec![p(), p().shift(2.0, 1.0), p().shift(4.0, 3.0), p().shift(1.0, 5.0)],
         vec![p().shift(0.5, 0.5), p().shift(2.5, 1.5), p().shift(4.5, 3.5), p().shift(1.5, 5.5)],
+        // 7-9: three objects whose looks are mutually admissible under a wide visual threshold: every
+        // detection of the third frame has appearance votes for every track, from workers of different shards
+        vec![p().feat(&look(0.0, 0.0), 0.9), q().feat(&look(0.9, 0.1), 0.9), s().shift(40.0, 0.0).feat(&look(0.2, 0.8), 0.9)],
+        vec![p1().feat(&look(0.1, 0.05), 0.8), q().shift(1.0, 0.0).feat(&look(0.8, 0.2), 0.8), s().shift(41.0, 0.0).feat(&look(0.3, 0.7), 0.8)],
+        vec![p().shift(2.0, 1.0).feat(&look(0.42, 0.12), 0.9), q().shift(2.0, 0.0).feat(&look(0.55, 0.3), 0.9), s().shift(42.0, 0.0).feat(&look(0.33, 0.45), 0.9)],
     ]
+}
+
+fn look(x: f32, y: f32) -> Vec<f32> {
+    vec![x, y, 0.25, 0.0, 0.0, 0.0, 0.0, 0.0]
 }
 
 #[derive(Clone, Debug, PartialEq)]
@@ -44,12 +53,12 @@ fn run(cfg: &TrkCfg, ls: &[Vec<Det>], h: &[Call]) -> Obs {
 
 pub fn run_check(tier: Tier) -> Report {
     let rep = Report::new("C05", tier);
-    rep.set_rule("(1) every history of depth <= 3 (Sort: 3 quick / 4 thorough) over predict(scene in {0,5}, one of 7 tie-free lists) for shard counts 2..8 against the 1-shard transcript (ids included for the simple trackers); (2) for Sort and VisualSort with 2 and 3 shards, IoU and Mahalanobis, histories of three calls with 2-3 detections (appearing, continuing, approaching, crossing objects): every schedule of the store workers and the caller at command granularity within each call in turn (window = one call; 3 shards: preemption bound 2 quick / 3 thorough; thorough also 4 shards at bound 2), plus a fine tier branching at every synchronisation operation with at most 2 (thorough 3) departures from the default schedule; oracle: records and the canonical store dump after every call equal the 1-shard default-schedule reference. states = executions.");
+    rep.set_rule("(1) every history of depth <= 3 (Sort: 3 quick / 4 thorough) over predict(scene in {0,5}, one of 7 tie-free lists) for shard counts 2..8 against the 1-shard transcript (ids included for the simple trackers); (2) for Sort and VisualSort with 2 and 3 shards, IoU and Mahalanobis, histories of three calls with 2-3 detections (appearing, continuing, approaching, crossing objects; for VisualSort also three objects with mutually admissible looks under a wide visual threshold, so that appearance votes for one track arrive from several workers in schedule-dependent order): every schedule of the store workers and the caller at command granularity within each call in turn (window = one call; 3 shards: preemption bound 2 quick / 3 thorough; thorough also 4 shards at bound 2), plus a fine tier branching at every synchronisation operation with at most 2 (thorough 3) departures from the default schedule; oracle: records and the canonical store dump after every call equal the 1-shard default-schedule reference. states = executions.");
     rep.assume("windows are joined by checked state equality: the dump after each call is identical under every schedule, so later windows are explored from the default-schedule representative");
     super::c04::run_c05_configs(&rep, tier);
 
     let ls = Arc::new(lists());
-    let histories: Vec<Vec<Call>> = vec![vec![(0, 0), (0, 1), (0, 3)], vec![(0, 0), (0, 2), (0, 3)], vec![(0, 1), (5, 0), (0, 2)], vec![(0, 4), (0, 1), (0, 2)], vec![(0, 5), (0, 6)]];
+    let histories: Vec<Vec<Call>> = vec![vec![(0, 0), (0, 1), (0, 3)], vec![(0, 0), (0, 2), (0, 3)], vec![(0, 1), (5, 0), (0, 2)], vec![(0, 4), (0, 1), (0, 2)], vec![(0, 5), (0, 6)], vec![(0, 7), (0, 8), (0, 9)]];
     let mut scen = BTreeMap::new();
     let mut total = 0u64;
     for kind in [Kind::Sort, Kind::VisualSort] {
@@ -59,7 +68,11 @@ pub fn run_check(tier: Tier) -> Report {
                     if shards == 4 && (tier == Tier::Quick || hi > 1) {
                         continue;
                     }
-                    if tier == Tier::Quick && (hi >= 2 && hi != 4 && (shards == 3 || pos == Pos::Maha) || hi == 4 && (shards == 3 || pos == Pos::Maha || kind == Kind::VisualSort) || kind == Kind::VisualSort && shards == 3 && hi >= 1) {
+                    // history 5 is the appearance-contest history: VisualSort with a wide visual threshold only
+                    if hi == 5 && (kind != Kind::VisualSort || pos != Pos::Iou(0.3) || shards == 4 || shards == 3 && tier == Tier::Quick) {
+                        continue;
+                    }
+                    if hi != 5 && tier == Tier::Quick && (hi >= 2 && hi != 4 && (shards == 3 || pos == Pos::Maha) || hi == 4 && (shards == 3 || pos == Pos::Maha || kind == Kind::VisualSort) || kind == Kind::VisualSort && shards == 3 && hi >= 1) {
                         continue;
                     }
                     if rep.out_of_time() {
@@ -70,6 +83,9 @@ pub fn run_check(tier: Tier) -> Report {
                     cfg.pos = pos;
                     cfg.shards = shards;
                     cfg.max_idle = 2;
+                    if hi == 5 {
+                        cfg.vis.metric = Vis::Euclid(1.5);
+                    }
                     let mut ref_cfg = cfg.clone();
                     ref_cfg.shards = 1;
                     let (ls2, h2, rc) = (ls.clone(), h.clone(), ref_cfg.clone());
